@@ -73,6 +73,16 @@ impl Debug for CountMinRow {
     }
 }
 
+// ---------------------------------------------------------------------------
+// Verification hooks (cargo feature `verif-hooks`, off by default).
+// ---------------------------------------------------------------------------
+#[cfg(feature = "verif-hooks")]
+impl CountMinRow {
+    pub(crate) fn verif_bytes(&self) -> Vec<u8> {
+        self.0.clone()
+    }
+}
+
 #[cfg(test)]
 mod test {
     use crate::lfu::tinylfu::sketch::count_min_row::CountMinRow;
